@@ -4,7 +4,7 @@ Ordering helpers, mem::{swap, replace, take}).  Same rules as stdmodels.py: tran
 import re
 import z3
 from .mir import split_top
-from .types import TInt, TBool, TStruct, TEnum, TVec, TOpaque, TCell, UNIT, BOOL, ORDERING, INTS
+from .types import TInt, TBool, TStruct, TEnum, TVec, TOpaque, TCell, UNIT, BOOL, ORDERING, INTS, STRTOK
 from .values import (Sc, St, En, Vc, Opq, UNITV, bv, fresh, default, leaves, vmap, ite, mk_variant, is_variant, payload, simp)
 from .engine import Ref, Clo, It, Unsupported, BoundExceeded, DIVERGE, AND, OR, NOT
 from . import stdmodels as S
@@ -449,6 +449,15 @@ def m_token_bytes(eng, m, args, dest_ts, st, where):
     if not isinstance(v, Sc) or z3.is_bool(v.t):
         return NotImplemented
     return v            # the token stands for the content; only comparisons can observe it (generic_cmp / generic_eq on `[u8]`)
+
+
+@model('integer to_string as a string token', r'^<(u8|u16|u32|u64|usize|i8|i16|i32|i64|isize) as ToString>::to_string$')
+def m_int_to_string(eng, m, args, dest_ts, st, where):
+    # the decimal text of an integer, as an ordered string token: its rank among other strings is left unconstrained (an over-approximation:
+    # the only facts a caller can derive are those true of every string), so a property can fail here only with a model that the native replay then has to confirm
+    if eng.tenv.string_as_slice:
+        return NotImplemented
+    return fresh(STRTOK, 'to_string')
 
 
 @model('Index<usize> for Vec / slices', r'^<(?:Vec<.+>|\[.+\]) as Index(?:Mut)?<usize>>::index(?:_mut)?$')
